@@ -292,6 +292,14 @@ Step(e) ==
       [] e.ev = "caller"   -> [bad |-> CallerClause(e), drift |-> "", stop |-> FALSE]
       [] OTHER             -> [bad |-> "UnknownEvent", drift |-> "", stop |-> FALSE]
 
+\* A HEAD request that declares a body: the server parser skips the body, so everything that goes wrong with that
+\* body afterwards (partly written, left in the stream, connection closed by one end only) is the same deviation.
+HeadBodyCascade == {"ReqFramingTruthful", "CloseAgree", "RequestNotDelivered", "ReqReceiverFollowsRfc",
+                    "WithheldBodyConnectionReused", "NextRequestFails", "ClientLeftWaiting"}
+HeadWithBody(e) ==
+    LET w == IF e.ev = "reqwire" THEN e ELSE IF "reqwire" \in DOMAIN st THEN st["reqwire"] ELSE [present |-> FALSE] IN
+    /\ w.present /\ w.method = "HEAD" /\ (w.cl > 0 \/ w.te = "chunked")
+
 \* the events of one execution come in a fixed order and none may be missing
 NextEvents(prev) ==
     CASE prev = ""         -> {"issue"}
@@ -325,7 +333,8 @@ TNext ==
     /\ l < NEvents(tid)
     /\ LET e == Events(tid)[l + 1]
            oc == OrderClause(l + 1)
-           a == IF oc # "" THEN [bad |-> oc, drift |-> ""] ELSE Step(e)
+           a0 == IF oc # "" THEN [bad |-> oc, drift |-> ""] ELSE Step(e)
+           a == IF a0.bad \in HeadBodyCascade /\ HeadWithBody(e) THEN [a0 EXCEPT !.bad = "HeadRequestBodyDropped"] ELSE a0
            d2 == IF a.drift # "" /\ Len(drift) < 3 THEN Append(drift, a.drift) ELSE drift
            v2 == IF "dev" \in DOMAIN a THEN Append(devs, a.dev) ELSE devs
            l2 == IF a.bad = "" THEN l + 1 ELSE l
